@@ -162,7 +162,13 @@ func (s *ObjectField) ToJ5Field() *schema_j5pb.Field {
 
 type OneofField struct {
 	fieldContext
-	Ref       *RefSchema
+	Ref *RefSchema
+
+	// Exposed is set for a proto oneof exposed as a property of the message
+	// which declares it: there is no wrapper message, the members are fields
+	// of the parent message itself.
+	Exposed bool
+
 	Rules     *schema_j5pb.OneofField_Rules
 	ListRules *list_j5pb.OneofRules
 	Ext       *schema_j5pb.OneofField_Ext
